@@ -68,6 +68,26 @@ def build_key_of(body):
 # C16
 # ----------------------------------------------------------------------------------------
 
+def check_insert_offered(rep, fl, rule="R16.7"):
+    """Whatever try_update hands back - a New item or the cost Update of a resident key - is offered to the insert
+    buffer on every path (a blocking / non-blocking send or a select over it).  An update that is judged not worth
+    sending (`cost == 0`) leaves the policy charging the replaced value's cost."""
+    import props_life
+    b = fl.facts.flat(fl.cache_fn("try_insert_in"))
+    attempts = [bi for bi, t, ch, pay in props_life.send_sites(b) if ch == norm(F(V("self"), "insert_buf_tx"))]
+    attempts += [bi for bi, t in b.calls() if re.search(r"internal::(try_select|select|select_timeout)$|Select::(try_select|select|ready|try_ready)$", b.callee_of(t) or t.get("callee", ""))]
+    some = []
+    for bi in b.live_blocks():
+        t = b.term(bi)
+        if t and t["k"] == "switch":
+            for tgt, atom, pol in edge_literals(b, bi):
+                if atom is not None and atom[0] == "variant" and atom[2] == "Some" and pol and any(is_call(c, "try_update") for c in calls_in(norm(b.expand(atom[1])))):
+                    some.append(tgt)
+    ok = bool(attempts) and bool(some) and all(must_pass_through(b, attempts, from_bi=x) for x in some)
+    rep.check(ok, rule, fl, b, "item always offered", "every item produced by try_update is offered to the insert buffer (sent, or refused by a full / closed buffer)",
+              "try_insert_in can return without offering the item to the insert buffer: the store already holds the new value, the policy never hears of its cost")
+
+
 def check_arms_reach_policy(rep, fl, rule="R16.3"):
     """Every applied item reaches the policy: whatever its field values, a New item goes through policy.add, an
     Update through policy.update and a Delete through policy.remove (no early way out of the arm before the call:
@@ -172,6 +192,7 @@ def check_C16(rep, fl):
         rep.check(ok, "R16.3", fl, hi, "policy.update(key, internal(cost)+external)", "Update => policy.update(key, calculate_internal_cost(cost) + external_cost)",
                   "policy.update is called with (%s, %s)" % (show(a[1]), show(a[2])), loc=t["sp"])
     check_arms_reach_policy(rep, fl)
+    check_insert_offered(rep, fl)
     # who may charge: the cost handed to the policy is computed in handle_item only (the sites checked above)
     other = "r#async" if fl.name == "sync" else "::sync::"
     outside = []
@@ -1050,6 +1071,8 @@ def check_C15(rep, fl):
         emptied = clears + repl
         ok = bool(emptied) and (must_pass_through(rb, emptied, from_bi=pp_[0][0]) or any(block_dominates(rb, e, pp_[0][0]) for e in emptied))
         rep.check(ok, "R15.2", fl, rb, "emptied", "the batch buffer is emptied whatever the outcome of the flush", "after a flush the buffer can keep its contents: the same lookups are recorded twice")
+    import props_store
+    props_store.check_single_section(rep, fl, "R15.2", [fl.ring + "::push"], "appending a lookup, handing the full batch over (or copying it) and emptying the buffer")
     ed = batch_edits(rb)
     rep.check(not ed, "R15.2", fl, rb, "batch not edited", "the pending batch is only appended to, handed over and emptied",
               "the pending batch is edited before it is handed over (%s): lookups are lost without being accounted as dropped" % ", ".join(ed), loc=None)
